@@ -74,7 +74,7 @@ var blockingCalls = func(n string) bool {
 
 func checkC19(c *fw.Ctx) {
 	c.Explanation = "C19 (static): lockset analysis (must-hold dataflow over each function's CFG) for the three shared structures - DNSCache.entries under DNSCache.mutex, destinationTripper.transports under transportsMutex, and the DirectKeyFetcher result map under resultsMutex: every use of the guarded map happens with its mutex held, the mutex is shared by all goroutines that share the data, every Lock is released on all paths, no blocking call (resolver, dial, round trip, key client, wait) happens with a mutex held and no function holds two of them; the DNS cache inserts only in the critical section in which the eviction loop established len < size, serves an entry only before its expiry and stores under the looked-up name; the worker pool adds to the WaitGroup before starting workers, workers defer Done and the parent reads the results only after Wait; the PDU interface's read-only accessors do not write to the receiver."
-	c.NotDecidedClause("linearizability / 'same result as sequential execution'; termination of the eviction loop (size 0 never terminates); races inside third-party code; the sync.Map resolution cache")
+	c.NotDecidedClause("linearizability / 'same result as sequential execution'; races inside third-party code; the sync.Map resolution cache")
 	checkDNSCache(c)
 	checkTripper(c)
 	checkKeyFetcherPool(c)
@@ -325,6 +325,38 @@ func checkDNSCache(c *fw.Ctx) {
 		}
 		if okSection {
 			c.Ok(rule, "eviction and insertion happen in one critical section", c.P.Pos(fw.InstrPos(insert)), "no Unlock between the eviction loop and the insertion")
+		}
+	}
+	// termination: for size <= 0 the loop condition len(entries) >= size holds for the empty map,
+	// evicting from it removes nothing, and the loop spins forever with the mutex held (every
+	// other caller then blocks on the mutex). The loop must only be entered with a positive size:
+	// a dominating test of the size, or a constructor that never stores a non-positive size.
+	if header != nil {
+		construct := "the eviction loop is entered only with a positive size (it cannot make room in an empty cache)"
+		guarded := false
+		for _, f := range fw.DomConds(header) {
+			s := f.String()
+			if strings.Contains(s, "recv.size") && (strings.HasPrefix(s, "!(") && (strings.Contains(s, "<= 0)") || strings.Contains(s, "< 1)")) || !strings.HasPrefix(s, "!") && (strings.Contains(s, "> 0)") || strings.Contains(s, ">= 1)"))) {
+				guarded = true
+			}
+		}
+		raw, other := 0, 0
+		for _, f := range c.P.SrcFuncs() {
+			for _, st := range fw.FieldStores(f, "DNSCache", "size") {
+				if _, isParam := st.Val.(*ssa.Parameter); isParam {
+					raw++
+				} else {
+					other++
+				}
+			}
+		}
+		switch {
+		case guarded:
+			c.Ok(rule, construct, c.P.Pos(fw.InstrPos(header.Instrs[len(header.Instrs)-1])), "")
+		case raw > 0 && other == 0:
+			c.Fail(rule, construct, c.P.Pos(fw.InstrPos(header.Instrs[len(header.Instrs)-1])), "the size is stored as given by the caller and the loop `for len(entries) >= size` is not guarded by a test of it: with size 0 the condition holds for the empty map, nothing can be evicted, and the first lookup spins forever while holding the mutex")
+		default:
+			c.Undecided(rule, construct, "the size field is not stored straight from a parameter; whether it can be non-positive was not traced")
 		}
 	}
 	// expiry
